@@ -183,4 +183,41 @@ theorem readLines_rows_append {F} (c : FloatCodec F) (cid : Option Int) (tail : 
         obtain ⟨evs2, later⟩ := p
         cases later <;> rfl
 
+/-! ### round 4: records without an event id -/
+
+/-- an event the format can carry when no id column is written: origin time in range (no condition on the id) -/
+def EventTimeOk (e : Event) : Prop := |e.ms| < 8589934592000
+
+theorem parseRow_rowOfNoId {F} (c : FloatCodec F) (i : Nat) (cid : Option Int) (e : Event) (he : EventTimeOk e)
+    (hc : EventCodecOk c e) :
+    parseRow c i (rowOfNoId c cid e) = .ok ({ e with id := storeId (natDigits (i + 1) i) }, cid.getD (-1)) := by
+  obtain ⟨h1, h2, h3, h4⟩ := hc
+  unfold CodecOk at h1 h2 h3 h4
+  unfold EventTimeOk at he
+  simp [parseRow, rowOfNoId, rowOf, h1, h2, h3, h4, readerParse_timeString e.ms he, catId_roundtrip]
+
+theorem readLines_rows_noid {F} (c : FloatCodec F) (cid : Option Int) :
+    ∀ (evs : List Event) (first : Bool) (i : Nat), (∀ e ∈ evs, EventTimeOk e ∧ EventCodecOk c e) →
+      readLines c first i (evs.map (fun e => Line.row (rowOfNoId c cid e)))
+        = .ok (renumber i evs, if evs = [] then none else some (cid.getD (-1)))
+  | [], _, _, _ => by simp [readLines, renumber]
+  | e :: rest, first, i, h => by
+    have he := h e List.mem_cons_self
+    have hr := readLines_rows_noid c cid rest false (i + 1) (fun x hx => h x (List.mem_cons_of_mem _ hx))
+    simp only [List.map_cons, readLines, parseRow_rowOfNoId c i cid e he.1 he.2, hr, renumber]
+    by_cases hrest : rest = []
+    · simp [hrest]
+    · simp [hrest]
+
+theorem renumber_length : ∀ (i : Nat) (evs : List Event), (renumber i evs).length = evs.length
+  | _, [] => rfl
+  | i, _ :: es => by simp [renumber, renumber_length (i + 1) es]
+
+/-! ### round 4: the region's dict form -/
+
+theorem swap_swap (l : List (Rat × Rat)) : (l.map (fun o => (o.2, o.1))).map (fun p => (p.2, p.1)) = l := by
+  simp [List.map_map, Function.comp_def]
+
+theorem pyStrName_idem (n : Option (List Char)) : pyStrName (some (pyStrName n)) = pyStrName n := rfl
+
 end Persist
